@@ -1,4 +1,5 @@
 import Ledger.Driver.Core
+import Ledger.Api.InterpCompare
 
 /-! Handler "interp" (C26): differential of the two REAL Numscript runtimes.  There
 is no Lean model here: the handler only compares the two recorded results
@@ -42,16 +43,9 @@ def handleInterp : Handler := fun inp out => do
   let primary := (featurePriority.find? fun f => feats.contains f).getD "plain"
   -- zero-amount postings are ignored; postings that become adjacent with the same
   -- (source, destination, asset) once the zeros are gone are merged on both sides
-  -- (the machine only fails to merge them because a zero posting sits in between)
-  let merge (ps : List (String × String × String × String)) : List (String × String × String × Int) :=
-    ps.foldl (fun acc p =>
-      let amt := p.2.2.2.toInt?.getD 0
-      match acc.reverse with
-      | (s, d, a, v) :: rest =>
-        if s = p.1 && d = p.2.1 && a = p.2.2.1 then (rest.reverse ++ [(s, d, a, v + amt)])
-        else acc ++ [(p.1, p.2.1, p.2.2.1, amt)]
-      | [] => [(p.1, p.2.1, p.2.2.1, amt)]) []
-  let nz (ps : List (String × String × String × String)) := merge (ps.filter fun p => p.2.2.2 ≠ "0")
+  let nz (ps : List (String × String × String × String)) : List Ledger.Api.Interp.P :=
+    Ledger.Api.Interp.norm (ps.map fun p =>
+      { source := p.1, destination := p.2.1, asset := p.2.2.1, amount := p.2.2.2.toInt?.getD 1 })
   let staticOnly (e : String) : Bool := e = "compile" || e = "parse"
   -- a program only one front end accepts is not in the shared language
   let outOfSubset := (!m.ok && staticOnly m.err && i.ok) || (!i.ok && staticOnly i.err && m.ok)
